@@ -179,7 +179,8 @@ def apply_along_axis(self, func, axis=None, skipna=False, args=(), **kwargs):
     else:
         raise Exception("cannot find new axes for this transformation: "+repr(funcname))
 
-    newobj = obj._constructor(result, newaxes, **obj.attrs)
+    newobj = obj._constructor(result, newaxes)
+    newobj.attrs.update(obj.attrs) # not as keyword arguments: a key may be named like a parameter ('values', 'axes')
 
     # add stamp
     #stamp = "{transform}({axis})".format(transform=funcname, axis=str(obj.axes[idx]))
@@ -580,7 +581,8 @@ def diff(self, axis=-1, scheme="backward", keepaxis=False, n=1):
         raise ValueError("scheme must be one of 'forward', 'backward', 'central', got {}".format(scheme))
 
     newaxes = [ax.copy() if ax.name != name else newaxis for ax in obj.axes]
-    newobj = obj._constructor(result, newaxes, **obj.attrs)
+    newobj = obj._constructor(result, newaxes)
+    newobj.attrs.update(obj.attrs)
 
     return newobj
 
